@@ -118,7 +118,11 @@ def partialSizeLoop (name : String) (path : List String) : List Listed → List 
     else if startsWith thisPath path then partialSizeLoop name path rest (acc ++ [f.size])
     else partialSizeLoop name path rest acc
 
-/-- `Torrent.partial_size(path)` with `path` already split into components -/
+/-- `Torrent.partial_size(path)` with `path` already split into components.  Every path that is
+    not answered ends in `raise PathError(os.path.join('', *path), msg='Unknown path')`; the
+    leading `''` makes that line total, so the *empty* path on a single-file or content-less
+    torrent is the unknown-path error like any other (before /repo 8785da6 `os.path.join(*())`
+    raised `TypeError` there: finding D20b, fixed). -/
 def partialSize (t : Torrent) (path : List String) : Except Err Nat :=
   match t.mode with
   | .single n => if path = [t.name] then .ok n else .error .path
